@@ -20,6 +20,7 @@ package main
 import (
 	"fmt"
 	"go/token"
+	"go/types"
 	"strings"
 
 	"golang.org/x/tools/go/ssa"
@@ -388,3 +389,137 @@ func opClauseRange(c *Ctx, op string) (token.Pos, token.Pos) {
 	return token.NoPos, token.NoPos
 }
 
+
+// ---- R01h: the balance tracked for (account, asset) is the store's balance of that account and asset -------
+//
+// ResolveBalances fills Machine.Balances before execution; every debit is then checked against it. Each entry
+// m.Balances[A][K] written there is the result of Store.GetBalance(ctx, string(A), string(K)) for the same A and K
+// (wrapped in NewMonetaryIntFromBigInt), or machine.Zero for the account "world". A shortcut that fills the entry
+// from something else — the amount of a balance() variable that happens to have the same asset but reads another
+// account — lets the script spend what another account holds.
+func ruleR01h(c *Ctx) {
+	const rule = "R01h"
+	balF := c.MustField(rule, pkgVM, "Machine", "Balances")
+	fn := c.MustFn(rule, pkgVM, "Machine.ResolveBalances")
+	if balF == nil || fn == nil {
+		return
+	}
+	var zero *ssa.Global
+	if p := c.SSAPkg(pkgMachine); p != nil {
+		zero, _ = p.Members["Zero"].(*ssa.Global)
+	}
+	stripConv := func(v ssa.Value) ssa.Value {
+		for i := 0; i < 6; i++ {
+			switch x := v.(type) {
+			case *ssa.Convert:
+				v = x.X
+			case *ssa.ChangeType:
+				v = x.X
+			default:
+				return v
+			}
+		}
+		return v
+	}
+	fns := []*ssa.Function{fn}
+	allCalls(fn, func(ci ssa.CallInstruction) {
+		if g := staticCallee(ci); g != nil && fnPkgPath(origin(g)) == pkgVM && len(g.Blocks) > 0 && g.Signature.Recv() != nil && g != fn {
+			fns = append(fns, g)
+		}
+	})
+	n := 0
+	for _, f := range fns {
+		for _, b := range f.Blocks {
+			for _, ins := range b.Instrs {
+				mu, ok := ins.(*ssa.MapUpdate)
+				if !ok {
+					continue
+				}
+				// inner map = m.Balances[A]: looked up, or a new map that is stored there, or a local holding either
+				accKey := innerMapAccount(mu.Map, balF, 0)
+				if accKey == nil {
+					continue
+				}
+				n++
+				key := fmt.Sprintf("%s:balance-entry-is-the-store-balance#%d", origName(f), n)
+				acc, asset := stripConv(accKey), stripConv(mu.Key)
+				v := mu.Value
+				// machine.Zero (the account "world")
+				if u, ok := v.(*ssa.UnOp); ok && u.Op == token.MUL && zero != nil && u.X == ssa.Value(zero) {
+					c.ok(rule, key, mu.Pos(), "machine.Zero (the unbounded account)")
+					continue
+				}
+				if call, ok := v.(*ssa.Call); ok {
+					if g := staticCallee(call); g != nil && g.Name() == "NewMonetaryIntFromBigInt" && len(call.Call.Args) == 1 {
+						v = call.Call.Args[0]
+					}
+				}
+				okSrc := false
+				why := "its value is not the result of Store.GetBalance"
+				if ex, isEx := v.(*ssa.Extract); isEx && ex.Index == 0 {
+					if gb, isCall := ex.Tuple.(*ssa.Call); isCall && gb.Call.IsInvoke() && gb.Call.Method.Name() == "GetBalance" && len(gb.Call.Args) == 3 {
+						a2, k2 := stripConv(gb.Call.Args[1]), stripConv(gb.Call.Args[2])
+						switch {
+						case a2 != acc:
+							why = "it is the store's balance of another account (" + descr(a2, 0) + ") than the one it is recorded under (" + descr(acc, 0) + ")"
+						case k2 != asset:
+							why = "it is the store's balance for another asset (" + descr(k2, 0) + ") than the one it is recorded under (" + descr(asset, 0) + ")"
+						default:
+							okSrc = true
+						}
+					}
+				}
+				c.check(okSrc, rule, key, mu.Pos(), "the entry is Store.GetBalance of the same account and asset",
+					"ResolveBalances records a balance for ("+descr(acc, 0)+", "+descr(asset, 0)+") but "+why+": sends of the script are checked against funds the account does not hold")
+			}
+		}
+	}
+	if n < 2 {
+		c.undecided(rule, "floor:balance-entries", token.NoPos, fmt.Sprintf("expected the world and the store entries written by ResolveBalances, found %d", n))
+	}
+}
+
+// innerMapAccount: v is the per-account map m.Balances[A] — the result of that lookup, a map that is stored under
+// m.Balances[A], or a phi of those for one A; returns A.
+func innerMapAccount(v ssa.Value, balF *types.Var, depth int) ssa.Value {
+	if depth > 4 {
+		return nil
+	}
+	switch x := v.(type) {
+	case *ssa.Lookup:
+		if _, isBal := fieldRead(x.X, balF); isBal {
+			return x.Index
+		}
+	case *ssa.Extract:
+		if lk, ok := x.Tuple.(*ssa.Lookup); ok && x.Index == 0 {
+			return innerMapAccount(lk, balF, depth+1)
+		}
+	case *ssa.MakeMap:
+		if x.Referrers() != nil {
+			for _, r := range *x.Referrers() {
+				if mu, ok := r.(*ssa.MapUpdate); ok && mu.Value == ssa.Value(x) {
+					if _, isBal := fieldRead(mu.Map, balF); isBal {
+						return mu.Key
+					}
+				}
+			}
+		}
+	case *ssa.Phi:
+		var acc ssa.Value
+		for _, e := range x.Edges {
+			a := innerMapAccount(e, balF, depth+1)
+			if a == nil || (acc != nil && a != acc) {
+				return nil
+			}
+			acc = a
+		}
+		return acc
+	case *ssa.UnOp:
+		if x.Op == token.MUL {
+			if sv := singleStore(x.X); sv != nil {
+				return innerMapAccount(sv, balF, depth+1)
+			}
+		}
+	}
+	return nil
+}
